@@ -321,6 +321,11 @@ class Program:
         for cn, c in crates.items():
             for fj in c["fns"]:
                 f = Fn(fj, cn)
+                n = 1
+                while f.key in self.fns:
+                    # distinct items with one printed def path (e.g. two serde `__DeserializeWith` helpers in one fn)
+                    n += 1
+                    f.key = "%s#%d" % (fj["key"], n)
                 self.fns[f.key] = f
             for a in c["adts"]:
                 a["crate"] = cn
